@@ -595,7 +595,8 @@ public:
     ascon::byte_array squeeze(size_t len)
     {
         ascon::byte_array vec(len);
-        ::ascon_xof_squeeze(&m_state, vec.data(), len);
+        unsigned char none = 0;
+        ::ascon_xof_squeeze(&m_state, len ? vec.data() : &none, len);
         return vec;
     }
 
@@ -849,7 +850,8 @@ public:
     inline ascon::byte_array squeeze(size_t len)
     {
         ascon::byte_array vec(len);
-        ::ascon_xofa_squeeze(&m_state, vec.data(), len);
+        unsigned char none = 0;
+        ::ascon_xofa_squeeze(&m_state, len ? vec.data() : &none, len);
         return vec;
     }
 
